@@ -103,6 +103,24 @@ const DECL_LINES: &[&str] = &[
     "ze :: fn n -> bool do\n    if n == 0 do ret true end\n    ret zo(n - 1)\nend\nzo :: fn n -> bool do\n    if n == 0 do ret false end\n    ret ze(n - 1)\nend",
     "zp :: zq\nzq :: zp",
     "zh :: fn -> zh() end",
+    "zt0 := zt0 + 1",
+    "zt1 :: zt1",
+    // import forms the language might grow, and `start` obtained through an import
+    "from other use *",
+    "from b use *",
+    "from ma use *",
+    "from mb use *",
+    "from _constants use *",
+    "from /main use *",
+    "use other as start",
+    "from other use a as start",
+    "from ma use qva as start",
+    "from mb use qf0 as start",
+    "from _constants use one as start",
+    // errors located at string literals that span lines
+    "zs6: int = \"hello,\nw\"",
+    "print(1 + \"multi\nline\")",
+    "zs7 :: fn a: int -> a end\nzs7(\"a string that is long on its first line\n.\")",
     // string literals that span lines, with characters of several UTF-8 widths
     "zs1 := \"äöü\n\"\nzs1 <=> zs1",
     "zs2 := \"日本語のテキスト😀😀😀\nx\"\nprint(zs2)",
@@ -214,7 +232,7 @@ const SWAP_WORDS: &[&str] = &["int", "float", "str", "bool", "void", "self", "st
 pub const FAULT_KINDS: &[&str] = &[
     "trunc-char", "trunc-line", "replace-char", "insert-char", "delete-char", "splice", "drop-lines", "dup-lines",
     "move-lines", "insert-foreign", "conflict", "multibyte", "token-soup", "empty", "crlf", "remove", "ioerr",
-    "insert-decl", "rename-ident", "swap-literal", "reflow",
+    "insert-decl", "rename-ident", "swap-literal", "reflow", "alias-start",
 ];
 
 fn make_fault(r: &mut Rng, kind: &str, file: &str, text: &str, corpus: &Corpus, c: &Concrete) -> Option<Fault> {
@@ -353,6 +371,26 @@ fn make_fault(r: &mut Rng, kind: &str, file: &str, text: &str, corpus: &Corpus, 
             positions.sort();
             positions.dedup();
             Fault::Reflow { file, positions, indent: *r.pick(&[0usize, 0, 1, 4, 8]) }
+        }
+        "alias-start" => {
+            // the file no longer defines `start` itself but gets the name through an import
+            let ls = lines_of(text);
+            let def = ls.iter().position(|l| l.starts_with("start ::") || l.starts_with("start:"))?;
+            let spec = ls
+                .iter()
+                .filter_map(|l| {
+                    let t = l.trim();
+                    t.strip_prefix("use ").or_else(|| t.strip_prefix("from ")).map(|r| r.split_whitespace().next().unwrap_or("").to_string())
+                })
+                .next()
+                .unwrap_or_else(|| "other".to_string());
+            let ids: Vec<String> = identifiers(text).into_iter().map(|(_, _, w)| w).filter(|w| !KEYWORDS.contains(&w.as_str())).collect();
+            let name = if ids.is_empty() || r.chance(1, 2) { r.pick(&["a", "one", "zchk", "qva", "qvb", "qf0", "start"]).to_string() } else { r.pick(&ids).clone() };
+            let new_line = match r.below(3) {
+                0 => format!("use {} as start\nzold_start ::{}", spec, ls[def].splitn(2, "::").nth(1).unwrap_or(" fn do\n")),
+                _ => format!("from {} use {} as start\nzold_start ::{}", spec, name, ls[def].splitn(2, "::").nth(1).unwrap_or(" fn do\n")),
+            };
+            Fault::ReplaceLines { file, line: def, n: 1, text: new_line }
         }
         "empty" => Fault::Empty { file },
         "crlf" => Fault::Crlf { file },
